@@ -306,7 +306,12 @@ def cross_language(bs: List[Fields], d: str) -> Tuple[List[Dict[str, Any]], Dict
         msgs["EMBED1"] = {"id": 3900, "fields": {"inner": "BASE1", "n": "int32"}}
         msgs["EMBED2"] = {"id": 3901, "fields": {"e": "EMBED1", "arr": "BASE6[2]", "h": "HS"}}
         msgs["EMBED3"] = {"id": 3902, "fields": {"deep": "EMBED2"}}
-    prog = defx.Program({"root.yaml": {"constants": CONSTS, "struct_defs": STRUCTS, "message_defs": msgs}})
+    # (the root file also lists two core files itself, as older projects do: a second mention of a file already read changes nothing)
+    import pyrtma as _pk
+
+    cdir = os.path.join(os.path.dirname(os.path.abspath(_pk.__file__)), "core_defs")
+    prog = defx.Program({"root.yaml": {"imports": [os.path.join(cdir, "data_logger.yaml"), os.path.join(cdir, "core_defs.yaml")],
+                                       "constants": CONSTS, "struct_defs": STRUCTS, "message_defs": msgs}})
     try:
         paths = defx.compile_program(prog, d, name="hashes")
     except Exception as e:
@@ -320,7 +325,7 @@ def cross_language(bs: List[Fields], d: str) -> Tuple[List[Dict[str, Any]], Dict
 
     nshipped = 0
     for name, m in p.message_defs.items():
-        if "core_defs" in str(m.src):
+        if name not in msgs:
             cls = getattr(shipped, "MDF_" + name, None)
             nshipped += 1
             if cls is None or cls.type_hash != want[name]:
@@ -345,8 +350,8 @@ def cross_language(bs: List[Fields], d: str) -> Tuple[List[Dict[str, Any]], Dict
         if table is None:
             continue
         for name, h in want.items():
-            if "core_defs" in str(p.message_defs[name].src) and lang == "c":
-                continue  # the C back end omits core items by design
+            if name not in msgs and lang == "c":
+                continue  # the C back end omits core items by design (core = everything this program did not define itself)
             key = name.lstrip("_0123456789") if lang == "matlab" else name
             n += 1
             if table.get(key) != h:
@@ -477,6 +482,60 @@ def reserved_field_names(d: str) -> Tuple[List[Dict[str, Any]], int]:
     return problems, n
 
 
+def manager_versions(_=None) -> Tuple[List[Dict[str, Any]], int]:
+    """the manager is a sender too: every frame it originates (acknowledgements, CLIENT_INFO / CLIENT_CLOSED, failure notices, the
+    periodic reports, its log records) carries version 0 or the hash of ITS OWN type - whatever the version of the client message it
+    is writing about"""
+    import logging
+    import pyrtma.core_defs as cd
+    from pyrtma.message_data import MessageData
+    from .. import mmx, proto as P
+
+    own = {v.type_id: v.type_hash for k, v in vars(cd).items() if isinstance(v, type) and issubclass(v, MessageData) and v is not MessageData and k.startswith("MDF_")}
+    problems: List[Dict[str, Any]] = []
+    n = 0
+    for tc in (False, True):
+        mmx.fresh_gc()
+        w = mmx.World(timecode=tc, log_level=logging.INFO)
+        try:
+            def join(slot, hid, mid, logger=0, subs=()):
+                c = w.client(slot, hid).connect()
+                w.settle()
+                c.send(P.mkframe(P.MT_CONNECT_V2, P.p_connect_v2(logger, 0, 0, mid, 0, slot.encode()), timecode=tc, src_mod_id=mid))
+                w.settle()
+                for t in subs:
+                    c.send(P.mkframe(P.MT_SUBSCRIBE, P.p_sub(t), timecode=tc, src_mod_id=mid))
+                w.settle()
+                return c
+
+            L = join("L", 1, 60, logger=1, subs=(P.ALL_MESSAGE_TYPES,))
+            S = join("S", 2, 31, subs=(1001,))
+            D = join("D", 3, 41, subs=(1001,))
+            Pp = join("P", 4, 21)
+            foreign = 0xA2587171
+            # a delivery that fails for a subscriber that is not writable, one that fails on the write, a departure, the timers
+            Pp.send(P.mkframe(1001, b"bulk" * 4, timecode=tc, src_mod_id=21, reserved=foreign))
+            w.step(0, nonwritable=["S"])
+            w.settle()
+            D.rst()
+            Pp.send(P.mkframe(1001, b"bulk" * 4, timecode=tc, src_mod_id=21, reserved=foreign))
+            w.step(0)
+            w.settle()
+            for dt in (1.05, 5.1):
+                w.tick(dt)
+                w.step()
+                w.settle()
+            for f in L.drain():
+                if f.src_mod_id != 0:
+                    continue
+                n += 1
+                if f.h[11] not in (0, own.get(f.msg_type, 0)):
+                    problems.append({"kind": "manager-frame-version", "msg_type": f.msg_type, "sent": hex(f.h[11]), "own_hash": hex(own.get(f.msg_type, 0)), "timecode": tc})
+        finally:
+            w.stop()
+    return problems, n
+
+
 def wire_versions(pyfile: str) -> Tuple[List[Dict[str, Any]], int]:
     """the version field the real Client puts on the wire for every class of the generated module and of core_defs"""
     from .. import clx, proto as P
@@ -574,6 +633,9 @@ def run(tier: str) -> int:
         p3, nwire = wire_versions(st["pyfile"])
         allp += p3
         totals["wire_frames"] = nwire
+        p7, nmf = manager_versions()
+        allp += p7
+        totals["manager_frames"] = nmf
         p4, nrb = rebuild_hashes(d)
         allp += p4
         totals["rebuild_hash_comparisons"] = nrb
